@@ -66,6 +66,28 @@ func (e *fnEnc) libCall(v ssa.Value, fn *ssa.Function, c *ssa.CallCommon, args [
 		}
 		e.vc.assume(fmt.Sprintf("(and (>= %s (- 1)) (or (= %s (- 1)) (<= (+ %s %s) (s-len %s))))", n, n, n,
 			map[bool]string{true: fmt.Sprintf("(s-len %s)", args[1]), false: "1"}[!strings.HasSuffix(name, "Any")], args[0]))
+		if l, ok := lit(1); ok && strings.HasSuffix(name, "Any") && len(l) >= 1 && len(l) <= 8 && isASCII(l) {
+			// documented semantics for an ASCII character set: the byte at the result is in the set and no byte
+			// after it (LastIndexAny) / before it (IndexAny) is; -1 iff no byte of s is in the set
+			in := func(b string) string {
+				var alts []string
+				for i := 0; i < len(l); i++ {
+					alts = append(alts, fmt.Sprintf("(= %s %d)", b, l[i]))
+				}
+				return "(or " + strings.Join(alts, " ") + " false)"
+			}
+			at := func(k string) string {
+				return fmt.Sprintf("(select (s-base %s) (+ (s-off %s) %s))", args[0], args[0], k)
+			}
+			e.vc.assume(sImp(fmt.Sprintf("(>= %s 0)", n), in(at(n))))
+			e.vc.nfresh++
+			q := fmt.Sprintf("q!lib!%d", e.vc.nfresh)
+			rng := fmt.Sprintf("(and (< %s %s) (< %s (s-len %s)))", n, q, q, args[0])
+			if name == "strings.IndexAny" {
+				rng = fmt.Sprintf("(and (<= 0 %s) (or (< %s %s) (< %s 0)) (< %s (s-len %s)))", q, q, n, n, q, args[0])
+			}
+			e.vc.assume(fmt.Sprintf("(forall ((%s Int)) (! (=> %s (not %s)) :pattern (%s)))", q, rng, in(at(q)), at(q)))
+		}
 		if !strings.HasSuffix(name, "Any") {
 			if l, ok := lit(1); ok && len(l) >= 1 && len(l) <= 8 && name == "strings.Index" {
 				// the match is found at the returned position
@@ -348,4 +370,13 @@ func (e *fnEnc) initBufIfBuffer(ref string, T types.Type) {
 		r := e.freshRefRaw("bufarr")
 		e.setHeap(bufRefKey, fmt.Sprintf("(store %s %s %s)", e.heap(bufRefKey), ref, r))
 	}
+}
+
+func isASCII(s string) bool {
+	for i := 0; i < len(s); i++ {
+		if s[i] >= 128 {
+			return false
+		}
+	}
+	return true
 }
